@@ -515,6 +515,24 @@ def run(ctx):
         Xf = Expander(P, f)
         ok = len(d) == 1 and re.match(r"^\*Oomd::Fs::readFileByLine\(Oomd::Fs::Fd::openat\(param:dirfd, (const std::string\()?Oomd::Fs::k\w+", Xf(f.nodes[d[0]]["args"][0])) is not None
         sto = [i for i in f.calls() if re.match(r"^std::sto", f.callee(i))]
+        if not ok and not d and not sto:
+            # delegation through a shared helper: return H(dirfd, kXxxFile) where H reads that file by line and hands the lines to
+            # readMinMaxLowHighFromLines (and parses nothing itself)
+            for i in f.calls():
+                n_ = f.nodes[i]
+                hs = [P.fns[u] for u in P.resolve(n_.get("cusr", "")) if u in P.fns] if n_.get("cusr") else []
+                if len(hs) != 1 or not hs[0].file.startswith("oomd/") or hs[0] is f or len(n_.get("args", [])) != len(hs[0].params):
+                    continue
+                h = hs[0]
+                filearg = [k for k, a_ in enumerate(n_["args"]) if re.match(r"^(const std::string\()?Oomd::Fs::k\w+File", f.text(a_))]
+                fdarg = [k for k, a_ in enumerate(n_["args"]) if Xf(a_) == "param:dirfd"]
+                dh = h.calls("Fs::readMinMaxLowHighFromLines")
+                if len(filearg) == 1 and len(fdarg) == 1 and len(dh) == 1 and not [j for j in h.calls() if re.match(r"^std::sto", h.callee(j))]:
+                    want = r"^\*Oomd::Fs::readFileByLine\(Oomd::Fs::Fd::openat\(param:%s, (const std::string\()?param:%s" % (
+                        re.escape(h.params[fdarg[0]]["name"]), re.escape(h.params[filearg[0]]["name"]))
+                    if re.match(want, Expander(P, h)(h.nodes[dh[0]]["args"][0])):
+                        ok = True
+                        ctx.use(h)
         ctx.check(ok and not sto, "max-grammar-reader:" + nm, "sibling_agreement", f.loc(), nm + " delegates to readMinMaxLowHighFromLines on its own file",
                   nm + " parses its file itself (%s): 'max' would not be understood" % [f.callee(i) for i in sto])
     ctx.counters["max_grammar_readers"] = nmax
